@@ -30,6 +30,9 @@
 (*  PanicSurfaces       after a panic that fired: an error (C13)           *)
 (*  FaultFreeOK         without a fault: the run succeeds or fails exactly *)
 (*                      like the baseline                                  *)
+(*  OthersUnaffected    the engine that has just seen the fault answers    *)
+(*                      the same query, fault-free, like the baseline      *)
+(*                      (C13; event "after")                               *)
 (***************************************************************************)
 EXTENDS Integers, Sequences, FiniteSets, TLC, Json, SequencesExt
 
@@ -94,11 +97,14 @@ CensusEv == /\ IsEv("census")
             /\ viol' = viol \cup (IF Trace[l].alive > 0 THEN V("NoLeak", ToString(Trace[l].alive) \o " goroutine(s): " \o Trace[l].where) ELSE {})
                             \cup (IF Trace[l].mutated # "" THEN V("DataUnmodified", Trace[l].mutated) ELSE {})
             /\ UNCHANGED <<cur, run, phase, open, closes, fired, stat>>
+AfterEv == /\ IsEv("after")
+           /\ viol' = viol \cup (IF ~Trace[l].equal THEN V("OthersUnaffected", "the next query on the same engine differs from the baseline: " \o Trace[l].desc) ELSE {})
+           /\ UNCHANGED <<cur, run, phase, open, closes, fired, stat>>
 DeadEv == /\ IsEv("dead") /\ viol' = viol \cup {<<cur.id, "ProcessDead", Trace[l].why>>} /\ UNCHANGED <<cur, run, phase, open, closes, fired, stat>>
-OtherEv == /\ l <= Len(Trace) /\ Trace[l].ev \notin {"sc", "run", "create", "execstart", "qopen", "qclose", "fired", "execret", "close", "census", "dead"}
+OtherEv == /\ l <= Len(Trace) /\ Trace[l].ev \notin {"sc", "run", "create", "execstart", "qopen", "qclose", "fired", "execret", "close", "census", "dead", "after"}
            /\ l' = l + 1 /\ UNCHANGED <<cur, run, phase, open, closes, fired, viol, stat>>
 
-Next == Header \/ RunEv \/ CreateEv \/ StartEv \/ QOpen \/ QClose \/ FiredEv \/ RetEv \/ CloseEv \/ CensusEv \/ DeadEv \/ OtherEv
+Next == Header \/ RunEv \/ CreateEv \/ StartEv \/ QOpen \/ QClose \/ FiredEv \/ RetEv \/ CloseEv \/ CensusEv \/ AfterEv \/ DeadEv \/ OtherEv
 Spec == Init /\ [][Next]_vars
 Done == l = Len(Trace) + 1 => /\ PrintT(<<"VIOL", ToJson(SetToSeq(viol))>>) /\ PrintT(<<"STAT", ToJson(stat)>>)
 Accepted == TLCGet("stats").diameter - 1 = Len(Trace)
